@@ -232,6 +232,17 @@ func (p *Processor) ChargingDataUpdate(
 	ue.CULock.Lock()
 	defer ue.CULock.Unlock()
 
+	// An unknown (stale, foreign) charging data reference must be rejected
+	// before any rating, account or reservation change is made for it.
+	if _, exist := ue.Cdr[chargingSessionId]; !exist {
+		logger.ChargingdataPostLog.Errorf("CHFUe[%s]: charging session [%s] not found", ueId, chargingSessionId)
+		problemDetails := &models.ProblemDetails{
+			Status: http.StatusNotFound,
+			Cause:  "CHARGING_SESSION_NOT_FOUND",
+		}
+		return nil, problemDetails
+	}
+
 	// Online charging: Rate, Account, Reservation
 	responseBody, partialRecord := p.BuildConvergedChargingDataUpdateResopone(chargingData)
 
@@ -349,6 +360,17 @@ func (p *Processor) ChargingDataRelease(
 
 	ue.CULock.Lock()
 	defer ue.CULock.Unlock()
+
+	// An unknown (stale, foreign) charging data reference must be rejected
+	// before any rating, account or reservation change is made for it.
+	if _, exist := ue.Cdr[chargingSessionId]; !exist {
+		logger.ChargingdataPostLog.Errorf("CHFUe[%s]: charging session [%s] not found", ueId, chargingSessionId)
+		problemDetails := &models.ProblemDetails{
+			Status: http.StatusNotFound,
+			Cause:  "CHARGING_SESSION_NOT_FOUND",
+		}
+		return problemDetails
+	}
 
 	sessionChargingReservation(chargingData)
 
